@@ -384,6 +384,13 @@ def strat_pandas():
             pools = [st.sampled_from(grey or nulls)]
         n = draw(st.sampled_from(SIZES))
         cells = draw(st.lists(st.one_of(*pools), min_size=n, max_size=n))
+        if draw(st.integers(0, 9)) < 2:
+            # values that compare (and hash) equal but are of different types - 1, 1.0, True / 0, 0.0, False - side by side:
+            # each element has its own convertibility
+            n = max(n, 2)
+            twins = st.sampled_from([1, True, 1.0, 0, False, 0.0, 1, True])
+            cells = draw(st.lists(st.one_of(twins, twins, twins, *pools), min_size=n, max_size=n))
+            mode = "twins:" + mode
         container = draw(st.sampled_from(["series", "series", "index", "column", "series_schema", "regex_column"]))
         if container == "index" and spec["name"] == "float16":  # pandas: "float16 indexes are not supported"
             container = "series"
